@@ -291,6 +291,15 @@ func c18Case(c *core.Ctx, id string) {
 			all := e.P.AllTargets()
 			o.Failing = []string{all[r.IntN(len(all))].Label()}
 		}
+		// the last build of half of the histories is first made through run(callback=...), so that the targets the edits made
+		// stale are evaluated on that channel (with their diffs and output lines); the regular build follows
+		if b == nb-1 && b > 0 && r.IntN(2) == 0 && !o.Dry && len(o.Failing) == 0 {
+			if probs, kinds := c18Callback(s.Root, target, e.P.Args, nil, e.S, false, want, deps); len(probs) > 0 {
+				c.Violation(id, "", "callback-event-protocol-violated", map[string]any{"problems": probs, "variant": variant, "target": target, "event_kinds": kinds, "note": "callback run before the regular build"})
+				return
+			}
+			c.Count("callback_runs_that_evaluate_stale_targets", 1)
+		}
 		twice := r.IntN(4) == 0 && !o.Dry
 		var st *pj.Step
 		var res pj.BuildRes
